@@ -13,8 +13,8 @@ Res == (-1)..6
 ArgSets(hh) ==
   CASE hh \in {"ab_move", "xy_move"} -> T3(Ints, Ints, Ints)
     [] hh = "timed_pause" -> T1((0..PauseMax) \cup {-5, 10000, 1000000})
-    [] hh = "lowlevel_move" -> {<<r1, s1, a1, r2, s2, a2, c>> : r1 \in {0, 1, -5}, s1 \in {0, 1, -1}, a1 \in {0, 2},
-                                                               r2 \in {0, 7}, s2 \in {0, 3}, a2 \in {0, -1}, c \in Opts}
+    [] hh = "lowlevel_move" -> {<<r1, s1, a1, r2, s2, a2, c>> : r1 \in {0, 1, -5, -2}, s1 \in {0, 1, -1}, a1 \in {0, 2},           \* incl. accel = -rate (an axis that moves, then stops)
+                                                               r2 \in {0, 7, 1}, s2 \in {0, 3}, a2 \in {0, -1}, c \in Opts}
     [] hh = "abs_move" -> T3({0, 1, 5000}, Opts \cup {-7}, Opts \cup {250})
     [] hh \in {"pen_lower", "pen_raise"} -> T2({0, 1, 750, 65535}, Opts \cup {2, 7})
     [] hh = "servo_timeout" -> T2({0, 1, 60000}, Opts)
